@@ -18,6 +18,7 @@ const (
 	wkInner                        // task = RunnerManager.Run of the inner manager
 	wkCloser                       // task = element of the closers
 	wkFixture                      // fixture: task = element of a given field, no cancel, no filter
+	wkAuto                         // inner-manager or closer goroutine, decided by what it calls (Kind is set accordingly)
 )
 
 // c12WorkerSum is what the exploration of one goroutine body found.
@@ -164,6 +165,13 @@ func (x *c12) exploreWorker(fn *ssa.Function, bind c12Bind, kind c12WorkerKind, 
 		if kind == wkInner {
 			return staticCallee(call) == x.rmRun
 		}
+		if kind == wkAuto && staticCallee(call) == x.rmRun {
+			if sum.Kind == wkCloser {
+				sum.Unknown = "goroutine both runs the inner manager and calls a closer"
+			}
+			sum.Kind = wkInner
+			return true
+		}
 		if call.Call.IsInvoke() {
 			return false
 		}
@@ -176,13 +184,9 @@ func (x *c12) exploreWorker(fn *ssa.Function, bind c12Bind, kind c12WorkerKind, 
 			return false
 		}
 		for _, r := range roots {
-			u, isLoad := r.(*ssa.UnOp)
-			if !isLoad || u.Op != token.MUL {
-				return false
-			}
-			if _, isElem := u.X.(*ssa.IndexAddr); !isElem {
-				return false
-			}
+			// what the value is on the spawner's side decides (it may reach the
+			// goroutine as an argument, a captured variable, a parameter of an
+			// enclosing helper or of an iterator body, …)
 			ev := oracle(r)
 			if !(ev.K == xElem && ev.Base != nil && ev.Base.K == xField && ev.Base.Fld == field) {
 				return false
@@ -190,6 +194,12 @@ func (x *c12) exploreWorker(fn *ssa.Function, bind c12Bind, kind c12WorkerKind, 
 		}
 		for _, l := range roots {
 			taskVals[l] = true
+		}
+		if kind == wkAuto {
+			if sum.Kind == wkInner {
+				sum.Unknown = "goroutine both runs the inner manager and calls a closer"
+			}
+			sum.Kind = wkCloser
 		}
 		return true
 	}
@@ -385,9 +395,13 @@ func evalSpawnerSide(st *xState, v ssa.Value, g ssa.CallInstruction) xVal {
 			nf := st.x.frame(st.fr, callee, g, "spawn")
 			nf.closure = closure
 			tmp := st.clone()
+			args := g.Common().Args
+			if g.Common().IsInvoke() {
+				args = append([]ssa.Value{g.Common().Value}, args...)
+			}
 			for i, pa := range callee.Params {
-				if i < len(g.Common().Args) {
-					tmp.set(nf, pa, st.Eval(g.Common().Args[i]))
+				if i < len(args) {
+					tmp.set(nf, pa, st.Eval(args[i]))
 				}
 			}
 			return tmp.EvalIn(nf, v)
